@@ -18,6 +18,10 @@ CHECKS = {
    text="Proved in Coq: the integer clause on the digit-at-a-time path for literals of any length (NumberFacts.slow_int_exact, against the generated thresholds) and absence of uint64 wrap below the threshold. Decided by correspondence with the extracted models: values of all four front-ends vs the machine model (number accumulator with explicit uint64 wrap, FillBig text, string assembly, \\u decoding, build stack), and vs the reference parser RefParse.v (strings, escapes, surrogate pairs, duplicate keys, numbers by decimal denotation / nearest float64 via strconv). Two genuine defects are recorded as known findings (surrogate pairs; int64 top decade pinned by tests).",
    technique="Coq proof of the integer clause + extracted reference parser as oracle in a model/implementation correspondence",
    design='6/C02'),
+ 'C03': dict(
+   text="Proved in Coq for every configuration of the machine: for every input and every way of cutting it into buffers, the chunked run and the whole-buffer run agree on error/no-error and on the reported position (Chunk.chunks_same_control: a buffer boundary only clears the integer scan-ahead flag, which neither control nor the position fields depend on). Values: the model's run_chunks is compared with the real reader entry points of all front-ends (single- and multi-document) under 1-byte, 2-byte, every single split point, random multi-splits and refill-boundary straddles at every offset, and the reader outcome is compared with the []byte entry point, across front-ends (Tokenizer rebuilt, gen.Parser, Validator) and with sen.Parse on accepted JSON. Two genuine chunking defects are recorded as known findings.",
+   technique="Coq proof of chunking-independence of control/error/position + chunk-level model/implementation correspondence",
+   design='6/C03'),
  'C06': dict(
    text="Proved in Coq for the four JSON front-ends: no control state reachable on any input faults on any byte (Sweep.ctl_never_faults, from the same sweep as C01; the control-level faults are the literal-word index). Data-level faults (nil-map write in add, p.stack[0], slice bounds) are modelled as Fault outcomes of the machine and checked by correspondence on the fault-directed streams (mutated near-valid inputs, exhaustive short strings); every panic of the real code is a violation.",
    technique="Coq proof (control never faults, all inputs) + fault-outcome model and correspondence for data faults",
